@@ -313,6 +313,31 @@ def h_monotone(ctx):
     ctx.require("more-permissive-never-adds", not (kb - ka), key=key, extra=[list(k) for k in (kb - ka)][:3])
 
 
+EXTREMES = (      # documented thresholds: at a value no code reaches, the linter has nothing left to report
+    ("nesting", "max_nesting_depth", ("nest.py",), "nesting."), ("nesting", "max_nesting_depth", ("nest.rs",), "nesting."),
+    ("dry", "min_duplicate_lines", ("dup1.py", "dup2.py"), "dry."), ("dry", "min_occurrences", ("dup1.py", "dup2.py"), "dry."),
+    ("dry", "min_duplicate_tokens", ("dup1.py", "dup2.py"), "dry."),
+    ("collection-pipeline", "min_continues", ("pipeline.py",), "collection-pipeline."), ("cqs", "min_operations", ("cqs.py",), "cqs"),
+)
+
+
+def h_extreme_threshold(ctx):
+    """A documented threshold that is read at all silences its linter when set to a value nothing reaches."""
+    from src.core.config_parser import _normalize_config_keys
+    section, key, names, prefix = ctx.pick("threshold", EXTREMES)
+    ctx.note("threshold", section + "." + key)
+    spelled = section if ctx.pick("spelling", ("hyphen", "underscore")) == "hyphen" else section.replace("-", "_")
+    value = ctx.pick("value", (100000, 10 ** 9))
+    sec = {key: value}
+    if section in ("dry", "cqs"):
+        sec["enabled"] = True
+    base = _own(_lint(_normalize_config_keys({spelled: {"enabled": True}} if section in ("dry", "cqs") else {}), names), prefix)
+    got = _own(_lint(_normalize_config_keys({spelled: sec}), names), prefix)
+    ctx.cover("silenced" if not got else "still-reported")
+    ctx.require("trigger-fires-at-the-default", len(base) >= 1, threshold=section + "." + key)
+    ctx.require("extreme-threshold-silences", not got, threshold=section + "." + key, value=value, still=[(v.rule_id, v.line) for v in got][:3])
+
+
 def h_lang_inherit(ctx):
     """Per-language sections override only the keys they set; the rest is inherited from the top level."""
     which = ctx.pick("config", ("srp", "nesting", "magic-numbers"))
@@ -660,6 +685,10 @@ def obligations(tier):
            functions=["the threshold linters' Config.from_dict/__post_init__", "NestingDepthRule/SRPRule/MagicNumberRule/DRYRule/MethodPropertyRule/CQSRule/CollectionPipelineRule .check"],
            bounds="two thresholds a <= b in [-1, 9] (thorough: [-1, 16]) (symbolic where the code only compares, enumerated by forking where it needs a machine integer); 10 (section, key) pairs x 2 spellings",
            timeout=900, workers=14, must_cover=("rejected", "fires")),
+        Ob(name="K2e-thresholds-take-effect-at-extreme-values", engine="pathex", harness=h_extreme_threshold,
+           functions=["NestingConfig/DRYConfig/CollectionPipelineConfig/CQSConfig.from_dict", "the rules' use of the threshold"],
+           bounds="forked: %d documented thresholds x key spelling x values 10^5 and 10^9 on the linter's trigger" % len(EXTREMES),
+           timeout=200, workers=8, must_cover=("silenced",)),
         Ob(name="K2b-cli-threshold-overrides", engine="pathex", harness=h_cli_override,
            functions=["cli.linters.structure_quality._apply_nesting_config_override/_apply_nesting_to_languages/_apply_srp_config_override",
                       "cli.linters.shared.ensure_config_section/set_config_value", "NestingConfig.from_dict", "SRPConfig.from_dict"],
